@@ -1,6 +1,8 @@
 import Sentinel.Lemmas.FlowReject
 import Sentinel.Lemmas.FlowRejectConc
 import Sentinel.Lemmas.FlowRejectG
+import Sentinel.Lemmas.FlowRejectBurstG
+import Sentinel.Lemmas.FlowRejectOracle
 /-!
 # C02 — a reject-mode QPS flow rule admits exactly up to the threshold per statistic window
 (property theorems only; the refinement lemmas live in `Sentinel/Lemmas/FlowReject.lean`)
@@ -393,6 +395,76 @@ theorem window_cap_after_reload_statement_false : ¬ window_cap_after_reload_sta
   rw [hx] at this
   cases this
 
+/-! ## bursts through the general slot: throttling rules in front, sleeping callers, reloads between bursts
+
+`BOp` histories interleave the ops of `stepOp` with `par` bursts; the executed side runs a burst with `runSchedG`
+(what the driver does for a `par` line: each caller's check phase is the whole chain walk — a throttling rule may make
+it sleep, which advances the shared clock — and its record phase happens at the clock of that later moment), the
+reference with `refRunSchedG`. A caller without `WithBatchCount` is simply a thread with `b = 1`. -/
+
+/-- **histories with bursts: executed model = reference** — for every start `t0 ≥ 1 ms` and every history of
+`clock` / `load` / `loadres` / `entry` ops and `par` bursts (any threads, batches, schedules; throttling rules before or
+behind reject rules; reloads between bursts), all observations coincide: op results as in `runG_eq_ref`, and for every
+burst the per-caller decisions with blocking-rule ids. -/
+theorem bursts_eq_ref (t0 : Nat) (h0 : 0 < t0 / nsPerMs) (ops : List BOp) :
+    (runB { t := t0 } ops).2 = (refRunB { t := t0 } ops).2 :=
+  (runB_eq_ref (RepM.init t0 h0) ops).1
+
+/-- **`(k-1)·maxBatch` for the full `par`, full statement**: the plain window count of every own-traffic reject rule in
+force stays within `⌊T⌋ + (K-1)·B` after any history with bursts. False for the same reason as
+`window_cap_after_reload_statement` (a reload may lower `T` under a kept window); see `par_overshoot_full_partial`. -/
+def par_overshoot_full_statement : Prop :=
+  ∀ (K B t0 : Nat), 0 < t0 / nsPerMs → ∀ (ops : List BOp), BurstsOk K B { t := t0 } ops →
+    ∀ c ∈ (refRunB { t := t0 } ops).1.r.ctrls, c.info.rule.kind = .reject → c.info.feed = c.info.rule.res →
+      ∀ cap, c.info.rule.thr.cap = some cap → ∀ e,
+        refW c.info.L (histOf (refRunB { t := t0 } ops).1.r.H c.info.rule.res) (e + c.info.L - c.info.Iv) e ≤ cap + (K - 1) * B
+
+/-- **`(k-1)·maxBatch` for the full `par`** (`_partial` only in that it counts the tokens admitted *since the rule came
+into force*, like `window_cap_after_reload_partial`): after **any** history of ops and bursts in which every burst keeps
+at most `K` callers between check and record (`WidthOkG`, a condition on the schedule) and uses batches up to `B`
+(`BurstsOk`), for every own-traffic reject rule in force with finite cap `⌊T⌋` and every window position, the tokens
+admitted since the rule came into force are at most `⌊T⌋ + (K-1)·B`. Covers throttling rules in front of the reject rule
+(callers that sleep inside their check phase and record at later instants, the window possibly rolling in between),
+default batches, and reloads between bursts. By `bursts_eq_ref` the history `H` is the one the executed model's leap
+arrays track. -/
+theorem par_overshoot_full_partial (K B t0 : Nat) (ops : List BOp) (hok : BurstsOk K B { t := t0 } ops) :
+    ∀ c ∈ (refRunB { t := t0 } ops).1.r.ctrls, c.info.rule.kind = .reject → c.info.feed = c.info.rule.res →
+      ∀ cap, c.info.rule.thr.cap = some cap → ∀ e,
+        refW c.info.L (histOf ((refRunB { t := t0 } ops).1.r.H.drop c.born) c.info.rule.res) (e + c.info.L - c.info.Iv) e
+          ≤ cap + (K - 1) * B := by
+  have h0 : CappedS ((K - 1) * B) ({ t := t0 } : RMSt).r (({ t := t0 } : RMSt).t / nsPerMs) :=
+    ⟨by intro a ha; simp at ha, by intro c hc; simp at hc, by intro c hc; simp at hc⟩
+  exact (refRunB_capped h0 ops hok).cap
+
+/-- without a reload after the first load nothing is dropped (`born = 0`): the plain `(K-1)·B` bound of the property -/
+theorem par_overshoot_full_first_load (K B t0 : Nat) (ops : List BOp) (hok : BurstsOk K B { t := t0 } ops)
+    (c : RCtrl) (hc : c ∈ (refRunB { t := t0 } ops).1.r.ctrls) (hb : c.born = 0)
+    (hk : c.info.rule.kind = .reject) (hf : c.info.feed = c.info.rule.res) (cap : Nat) (hcap : c.info.rule.thr.cap = some cap) (e : Nat) :
+    refW c.info.L (histOf (refRunB { t := t0 } ops).1.r.H c.info.rule.res) (e + c.info.L - c.info.Iv) e ≤ cap + (K - 1) * B := by
+  have := par_overshoot_full_partial K B t0 ops hok c hc hk hf cap hcap e
+  rw [hb] at this
+  simpa using this
+
+/-- **soundness of the oracle's attribution rule** (`checks/C02.py` oracle phase, `Drv.C02.capViolations`): callers of a
+burst that slept are attributed to the clock before the burst although they recorded somewhere in `[t, t + slept]`;
+whatever those real instants were, if the cap check holds on the real history it raises no alarm on the oracle's — an
+earlier attribution never puts a token into a window it is not in. -/
+theorem oracle_attribution_sound (real orc : Sentinel.Drv.C02.DSt) (res : Nat)
+    (hinfos : orc.infos = real.infos) (ht : orc.t = real.t) (hw : orc.width = real.width) (hb : orc.maxB = real.maxB)
+    (hH : List.Forall₂ (Earlier real.now) orc.H real.H)
+    (hreal : Sentinel.Drv.C02.capViolations real res = []) : Sentinel.Drv.C02.capViolations orc res = [] :=
+  Sentinel.Drv.C02.oracle_attribution_sound real orc res hinfos ht hw hb hH hreal
+
+/-- the relation `Earlier` is exactly what the oracle produces for a burst: same prefix, the burst's admitted callers
+    stamped `t0` instead of their real instants `t0 ≤ tᵢ ≤ now` -/
+theorem earlier_burst (H0 : List Arrival) (now t0 : Nat) (hH0 : ∀ a ∈ H0, a.t ≤ now) (adm : List Arrival)
+    (hreal : ∀ a ∈ adm, t0 ≤ a.t ∧ a.t ≤ now) :
+    List.Forall₂ (Earlier now) (H0 ++ adm.map fun a => { a with t := t0 }) (H0 ++ adm) := by
+  apply List.rel_append
+  · exact List.forall₂_same.mpr (fun a ha => Earlier.refl_of_le (hH0 a ha))
+  · rw [List.forall₂_map_left_iff]
+    exact List.forall₂_same.mpr (fun a ha => ⟨rfl, rfl, (hreal a ha).1, (hreal a ha).2⟩)
+
 /-! ## reloading: which rule object stays in force -/
 
 /-- `Float64Equals` on two finite thresholds is the **absolute** comparison `|x - y| < 10⁻⁸` -/
@@ -437,6 +509,27 @@ theorem thrEq_frac_iff (n1 d1 n2 d2 : Nat) (h1 : 0 < d1) (h2 : 0 < d2) :
 theorem thrEq_samples :
     thrEq (.frac 3 1) (.frac 299999998 100000000) = false ∧ thrEq (.frac 3 1) (.frac 2999999995 1000000000) = true ∧
     thrEq (.frac 3000000000 1) (.frac 2999999980 1) = false ∧ thrEq .unbounded .unbounded = false := by decide
+
+theorem par_overshoot_full_statement_false : ¬ par_overshoot_full_statement := by
+  intro h
+  have hok : BurstsOk 1 0 { t := 1000 * nsPerMs } (wCapOps.map BOp.op) := by
+    simp [BurstsOk, wCapOps]
+  have h1 := h 1 0 (1000 * nsPerMs) (by decide) (wCapOps.map BOp.op) hok
+  have key : ∃ c ∈ (refRunB { t := 1000 * nsPerMs } (wCapOps.map BOp.op)).1.r.ctrls,
+      c.info.rule.kind = .reject ∧ c.info.feed = c.info.rule.res ∧ c.info.rule.thr.cap = some 1 ∧
+      ¬ refW c.info.L (histOf (refRunB { t := 1000 * nsPerMs } (wCapOps.map BOp.op)).1.r.H c.info.rule.res)
+        (1000 + c.info.L - c.info.Iv) 1000 ≤ 1 + (1 - 1) * 0 := by decide
+  obtain ⟨c, hc, hk, hf, hcap, hx⟩ := key
+  exact hx (h1 c hc hk hf 1 hcap 1000)
+
+/-- `BurstsOk` is satisfiable with real overlap behind a throttling rule and a reload between two bursts: two callers,
+    both checked before either records (`K = 2`), batches 1 -/
+example : BurstsOk 2 1 { t := 1000 * nsPerMs }
+    [.op (.load [{ res := 1, thr := .frac 1024 1, iv := 0, kind := .throttle 500 }, { res := 1, thr := .frac 3 1, iv := 3000 }]),
+     .par 1 [1, 1] [0, 1, 0, 1],
+     .op (.load [{ res := 1, thr := .frac 1024 1, iv := 0, kind := .throttle 500 }, { res := 1, thr := .frac 2 1, iv := 3000 }]),
+     .par 1 [1, 1] [0, 1, 1, 0]] := by
+  simp [BurstsOk, WidthOkG, burstThreads, nParked, parked, refStepB, refStepThreadG, refRunSchedG]
 
 /-! ## the known finding `assoc-standalone-own-traffic` -/
 
